@@ -240,12 +240,18 @@ def ops_strategy():
     return cases()
 
 
+_MEMO = {}
+
+
 def check_ops_h(case):
-    return check_ops(case)[0]
+    res = check_ops(case)
+    _MEMO.clear()
+    _MEMO[repr(case)] = res
+    return res[0]
 
 
 def classify_ops(case):
-    fails, info = check_ops(case)   # second evaluation only for classification; cheap relative to generation
+    fails, info = _MEMO.get(repr(case)) or check_ops(case)
     return nontrivial_ops(case, info), {"distribution": case.get("distribution", "?"), "input_validity": "valid" if info["valid"] else "invalid",
                                         "prep_outcome" + ("(valid)" if info["valid"] else "(invalid)"): info["prep"],
                                         "readout_outcome" + ("(valid)" if info["valid"] else "(invalid)"): info["readout"]}
